@@ -1094,5 +1094,6 @@ def recode(
         new_fn.__globals__[f"{lookup_prefix}{key}__"] = analysis.lookup_for(key)
     new_fn.__globals__[ovld_mangled] = ovld.dispatch
     new_fn.__globals__[map_mangled] = ovld.map
+    ovld._recode_globals[id(new_fn.__globals__)] = new_fn.__globals__
     new_fn.__globals__[code_mangled] = new_fn.__code__
     return new_fn
